@@ -4,7 +4,7 @@ from __future__ import annotations
 import ast
 import re
 
-from ..absint import new_interp, Interp, State, Activation, HList, HDict, HInst, HGen, NONE, const, is_const, fmt, fmt_seg, fmt_tree, mk_not
+from ..absint import new_interp, Interp, State, Activation, Outcome, HList, HDict, HInst, HGen, NONE, const, is_const, fmt, fmt_seg, fmt_tree, mk_not
 from ..names import N
 from ..common import AnalysisError, Report, read_text
 from ..facts import facts
@@ -135,13 +135,17 @@ def rule_tags(rep: Report, rid="C04.tags") -> None:
     want = ("binop", "Add", phi, ("binop", "Add", ("call", "len", (el,), ()), const(1)))
     rep.ob(rid, "after a tag the column advances by the untrimmed piece's length plus one for '@'", lin_eq(upd, want), **kw,
            expected=fmt(want, I), found=fmt(upd, I))
-    appended = [(n, ctx) for n, ctx in nf.iter_nodes(tree) if n[0] == "mutate" and n[2] == "append" and n[1] == rv]
-    rep.ob(rid, "each piece yields one tag item", len(appended) == 1 and nf.loops_in_ctx(appended[0][1]) == [lid], **kw, expected="one append per piece", found=len(appended))
-    for n, ctx in appended:
-        d = nf.resolve_ref_dict(I, n[3][0], tree)
+    # the returned list's content (append loop, comprehension, or list(<generator>)): one element per piece
+    elems = list(nf.seg_elems(nf.flatten_segs(I, nf.value_segs(I, rv, tree), tree)))
+    rep.ob(rid, "each piece yields one tag item", len(elems) == 1 and elems[0][0] == "e" and elems[0][2] == (lid,), **kw, expected="one append per piece",
+           found=[(k, loops) for k, _, loops, _ in elems])
+    for k, t, lp, gs in elems:
+        if k != "e":
+            continue
+        d = nf.resolve_ref_dict(I, t, tree)
         ok = d is not None and set(d) == {"column", "text"} and d["column"][0] == phi and d["text"][0] == ("binop", "Add", const("@"), ("call", ".strip", (el,), ()))
-        rep.ob(rid, "a tag item records the column before the advance and the text '@' + trimmed piece", ok, file=LFILE, line=n[4], function=fi.qualname,
-               expected="{'column': column, 'text': '@' + item.strip()}", found=fmt(n[3][0], I))
+        rep.ob(rid, "a tag item records the column before the advance and the text '@' + trimmed piece", ok, file=LFILE, line=fi.node.lineno, function=fi.qualname,
+               expected="{'column': column, 'text': '@' + item.strip()}", found=fmt(t, I))
     # whitespace error: raised with the current tag's column, ParserException
     raises = [(n, ctx) for n, ctx in nf.iter_nodes(tree) if n[0] == "raise"]
     good = 0
@@ -168,7 +172,8 @@ def rule_tags(rep: Report, rid="C04.tags") -> None:
 
 
 def _splitter_body(fi):
-    loops = [n for n in fi.node.body if isinstance(n, ast.While)]
+    """The single character loop of the splitter: ``while True: c = next(it, None) ...`` or ``for c in it: ...``."""
+    loops = [n for n in fi.node.body if isinstance(n, (ast.While, ast.For))]
     return loops[0] if len(loops) == 1 else None
 
 
@@ -201,8 +206,11 @@ def splitter_table():
     fi = I.facts.func(q)
     loop = _splitter_body(fi)
     problems = []
-    if loop is None or not (isinstance(loop.test, ast.Constant) and loop.test.value is True):
-        return None, ["split_table_cells is not a single 'while True' character loop"], fi
+    is_for = isinstance(loop, ast.For)
+    if loop is None or loop.orelse or (not is_for and not (isinstance(loop.test, ast.Constant) and loop.test.value is True)):
+        return None, ["split_table_cells is not a single character loop ('while True' over next(it, None), or 'for c in it')"], fi
+    post = fi.node.body[fi.node.body.index(loop) + 1:]
+    late_yield = any(isinstance(x, (ast.Yield, ast.YieldFrom)) for p_ in post for x in ast.walk(p_))
     # pre-loop initialisation
     pre_I = new_interp()
     pre_state = State()
@@ -223,10 +231,18 @@ def splitter_table():
         return None, [f"the row is not scanned through one iterator (iter(row)): {sorted(init)}"], fi
     itv = it_vars[0]
     seqs = [["|"], ["\\", "n"], ["\\", "|"], ["\\", "\\"], ["\\", "x"], ["\\", END], ["x"], ["n"], [END]]
-    flags = [k for k, v in init.items() if is_const(v, True)]
+    flags = [k for k, v in init.items() if is_const(v) and isinstance(v[1], bool)]
     if len(flags) != 1:
-        return None, [f"no single 'before the first pipe' flag initialised to True: {sorted(init)}"], fi
+        return None, [f"no single 'before the first pipe' boolean flag: {sorted(init)}"], fi
     flag = flags[0]
+    before = init[flag][1]          # the flag's value while nothing but text before the first pipe was seen
+    if is_for:
+        pst = State(env=dict(init))
+        pre_I.stack.append(act)
+        over = pre_I.ev(pst, loop.iter, [])
+        pre_I.stack.pop()
+        if over != init[itv]:
+            return None, ["the character loop does not run over the row iterator"], fi
     rows = []
     for first in (True, False):
         for seq in seqs:
@@ -237,7 +253,7 @@ def splitter_table():
                 if k == itv:
                     st.env[k] = v
                 elif k == flag:
-                    st.env[k] = const(first)
+                    st.env[k] = const(before if first else not before)
                 else:
                     sym[k] = ("param", k)
                     st.env[k] = ("param", k)
@@ -258,13 +274,22 @@ def splitter_table():
             I2.builtin_hooks["next"] = next_hook
             I2.stack.append(Activation(fi, 0))
             tree: list = []
-            out = I2.exec_block(loop.body, st, tree)
+            if is_for and feed[0] is END:
+                # the for loop ends when the iterator is exhausted: nothing of the body runs
+                feed.pop(0)
+                out = Outcome(brk=st)
+            else:
+                if is_for:
+                    I2.bind_target(st, loop.target, const(feed.pop(0)))
+                out = I2.exec_block(loop.body, st, tree)
             I2.stack.pop()
             end = out.live or out.cont or out.brk
             yields = [n[1] for n, _ in nf.iter_nodes(tree) if n[0] == "yield"]
+            if late_yield and seq[0] is END:
+                yields.append(("opaque", "yield after the loop"))
             undecided = [n for n, _ in nf.iter_nodes(tree) if n[0] == "if"]
             rows.append({"first": first, "seq": seq, "consumed": len(seq) - len(feed), "leftover": list(feed), "break": out.brk is not None and out.live is None and out.cont is None,
-                         "env": dict(end.env) if end else {}, "yields": yields, "undecided": undecided, "I": I2, "sym": sym, "flag": flag,
+                         "env": dict(end.env) if end else {}, "yields": yields, "undecided": undecided, "I": I2, "sym": sym, "flag": flag, "before": before,
                          "bare_next": [d for d in calls if d == ("nodefault",)], "raises": [n for n, _ in nf.iter_nodes(tree) if n[0] == "raise"]})
     return rows, problems, fi
 
@@ -324,11 +349,11 @@ def rule_split(rep: Report, rid="C12.split", rid_col="C04.cells") -> None:
             rep.ob(rid, f"{name}: a new empty cell starts", got_cell == [], **kw, expected="''", found=[fmt(x, I) for x in got_cell])
             rep.ob(rid_col, f"{name}: the new cell starts one column after the pipe", lin_eq(env.get(startv, NONE), ("binop", "Add", col0, const(2))), **kw,
                    expected="start_col = (col + 1) + 1", found=fmt(env.get(startv, NONE), I))
-            rep.eq(rid, f"{name}: afterwards the scan is inside a cell", const(False), env.get(r["flag"]), **kw)
+            rep.eq(rid, f"{name}: afterwards the scan is inside a cell", const(not r["before"]), env.get(r["flag"]), **kw)
             continue
         rep.ob(rid, f"{name}: nothing is yielded", not r["yields"], **kw, expected="no yield", found=[fmt(y, I) for y in r["yields"]])
         rep.ob(rid_col, f"{name}: the cell start column is unchanged", env.get(startv) == start0, **kw, expected=startv, found=fmt(env.get(startv, NONE), I))
-        rep.eq(rid, f"{name}: the before-first-pipe state is unchanged", const(first), env.get(r["flag"]), **kw)
+        rep.eq(rid, f"{name}: the before-first-pipe state is unchanged", const(r["before"] if first else not r["before"]), env.get(r["flag"]), **kw)
         if lead == "\\":
             second = seq[1]
             want = {"n": "\n", "|": "|", "\\": "\\", "x": "\\x"}.get(second, "\\") if second is not END else "\\"
@@ -499,28 +524,44 @@ def rule_scanner(rep: Report, rid_line="C04.line", rid_scan="C18.scan") -> None:
     rep.ob(rid_scan, "each read consumes exactly one physical line with readline() (lines end at line feeds only)", names == ["readline"] and not reads[0][3], **kw,
            expected="line = self.io.readline()", found=names or [n[1] for n, _ in nf.iter_nodes(tree) if n[0] in ("mcall", "extcall")])
     linev = ("call", ".readline", (("attr", selft, "io"),), ())
-    tok = rv
-    o = I.obj(tok)
-    ok_tok = isinstance(o, HInst) and o.cls.name == "Token"
+    # the returned value may be one Token or a decision between Tokens (early return at end of input): decide per case
+    cases = []
+    for a1, tok in nf.decisions(rv) or []:
+        line = st.ext.get((tok, "line"))
+        for a2, lv in (nf.decisions(nf.resolve_conds(line, a1)) if line is not None else None) or [({}, None)]:
+            cases.append(({**a1, **a2}, tok, lv))
+    ok_tok = bool(cases) and all(isinstance(I.obj(tok), HInst) and I.obj(tok).cls.name == "Token" for _, tok, _ in cases)
     rep.ob(rid_scan, "each read returns one new token", ok_tok, **kw, expected="Token(...)", found=fmt(rv, I))
     if not ok_tok:
         return
-    loc = st.ext.get((tok, "location"))
-    ld = nf.resolve_ref_dict(I, loc, tree) if loc else None
+    ok_loc = True
+    ok = True
+    seen_truth = set()
+    for assign, tok, lv in cases:
+        loc = nf.resolve_conds(st.ext.get((tok, "location")), assign) if st.ext.get((tok, "location")) is not None else None
+        ld = nf.resolve_ref_dict(I, loc, tree) if loc else None
+        ok_loc = ok_loc and ld is not None and set(ld) == {"line"} and lin_eq(ld["line"][0], inc)
+        if set(assign) != {linev}:
+            ok = False
+            continue
+        seen_truth.add(assign[linev])
+        if assign[linev]:
+            gl = I.obj(lv) if lv is not None else None
+            if isinstance(gl, HInst) and gl.cls.name == "GherkinLine":
+                t = st.ext.get((lv, N.RAW))
+                nnum = st.ext.get((lv, N.LINENO))
+                t = nf.resolve_conds(t, assign) if t is not None else None
+                nnum = nf.resolve_conds(nnum, assign) if nnum is not None else None
+                ok = ok and t == linev and nnum is not None and lin_eq(nnum, inc)
+            else:
+                ok = False
+        else:
+            ok = ok and lv in (linev, NONE, const(""))
+    ok = ok and seen_truth == {True, False}
     rep.ob(rid_line, "the token's location is {'line': the incremented counter} (1-based physical line; column added by the matcher)",
-           ld is not None and set(ld) == {"line"} and lin_eq(ld["line"][0], inc), **kw, expected="{'line': self.line_number} after the increment", found=fmt(loc, I) if loc else None)
-    line = st.ext.get((tok, "line"))
-    ok = False
-    if line is not None and line[0] == "cond" and line[1] == linev and line[3] in (linev, NONE, const("")):
-        gl = I.obj(line[2])
-        if isinstance(gl, HInst) and gl.cls.name == "GherkinLine":
-            t = st.ext.get((line[2], N.RAW))
-            nnum = st.ext.get((line[2], N.LINENO))
-            def strip_cond(x):
-                return x[2] if x is not None and x[0] == "cond" and x[1] == linev else x
-            ok = strip_cond(t) == linev and lin_eq(strip_cond(nnum), inc)
+           ok_loc, **kw, expected="{'line': self.line_number} after the increment", found=[fmt(st.ext.get((tok, "location")), I) for _, tok, _ in cases][:2])
     rep.ob(rid_scan, "a non-empty read becomes a GherkinLine of exactly that text and number; an empty read (end of input) becomes the EOF token", ok, **kw,
-           expected="Token(GherkinLine(line, n) if line else line, location)", found=fmt(line, I) if line else None)
+           expected="Token(GherkinLine(line, n) if line else line, location)", found=[(sorted((fmt(k, I), v) for k, v in a.items()), fmt(lv, I) if lv else None) for a, _, lv in cases])
 
 
 def rule_source_io(rep: Report, rid="C16.src") -> None:
